@@ -422,13 +422,48 @@ Qed.
 (* BitpackedReader::get_row_ids_for_value_range, at the level of its result: the rows of [r0, r1)
    whose bit-packed quotient lies in the transformed range (BitUnpacker::get_ids_for_value_range; its
    batch decoding through bitpacking::BitPacker1x is external and not modelled). *)
+(* BitUnpacker::get_ids_for_value_range, per decoded value q of a column of width w and a range a..=b:
+   widths above BITUNPACKER_FAST_RANGE_MAX_BITS scan with `range.contains(&val)`; the others work on u32:
+   nothing when the lower bound exceeds u32::MAX, otherwise `(start as u32) ..= (end.min(u32::MAX) as u32)`
+   against `get(idx) as u32`.  The two source-level precautions are pinned as flags and followed. *)
+Definition U32_MAX : N := 2 ^ 32 - 1.
+Definition range_end_saturates : bool := BITUNPACKER_RANGE_END_SATURATES =? 1.
+Definition range_start_above_u32_empty : bool := BITUNPACKER_RANGE_START_ABOVE_U32_EMPTY =? 1.
+Definition unpacker_in_range (w a b q : N) : bool :=
+  if BITUNPACKER_FAST_RANGE_MAX_BITS <? w then (a <=? q) && (q <=? b)
+  else if range_start_above_u32_empty && (U32_MAX <? a) then false
+  else
+    let a32 := a mod 2 ^ 32 in
+    let b32 := (if range_end_saturates then N.min b U32_MAX else b) mod 2 ^ 32 in
+    (a32 <=? q mod 2 ^ 32) && (q mod 2 ^ 32 <=? b32).
+
+(* the u32 path is sound: re-checked on the regenerated constants at every run *)
+Definition range_u32_rule : Prop :=
+  range_end_saturates = true /\ range_start_above_u32_empty = true /\ BITUNPACKER_FAST_RANGE_MAX_BITS <= 32.
+Lemma range_u32_rule_holds : range_u32_rule.
+Proof. vm_compute. repeat split; discriminate. Qed.
+
+Lemma unpacker_in_range_plain w a b q : q < 2 ^ w -> unpacker_in_range w a b q = (a <=? q) && (q <=? b).
+Proof.
+  intros Hq. destruct range_u32_rule_holds as (Hs & He & Hw). unfold unpacker_in_range. rewrite Hs, He.
+  destruct (BITUNPACKER_FAST_RANGE_MAX_BITS <? w) eqn:E; [reflexivity|]. apply N.ltb_ge in E.
+  assert (Hq32 : q < 2 ^ 32).
+  { eapply N.lt_le_trans; [exact Hq|]. apply N.pow_le_mono_r; [discriminate|lia]. }
+  assert (HU : U32_MAX = 2 ^ 32 - 1) by reflexivity.
+  cbn [andb]. destruct (U32_MAX <? a) eqn:Ea.
+  - apply N.ltb_lt in Ea. symmetry. apply andb_false_iff. left. apply N.leb_gt. lia.
+  - apply N.ltb_ge in Ea. rewrite (N.mod_small q) by exact Hq32. rewrite (N.mod_small a) by lia.
+    rewrite (N.mod_small (N.min b U32_MAX)) by lia. f_equal.
+    destruct (q <=? b) eqn:E1; [apply N.leb_le in E1; apply N.leb_le; lia|apply N.leb_gt in E1; apply N.leb_gt; lia].
+Qed.
+
 Definition bitpacked_range_rows_g (guard : bool) (col : (N * N * N * N) * bytes) (lo hi : N) (r0 r1 : nat) : list nat :=
   let s := stats_unwire (fst col) in
   match transform_range_g guard s lo hi with
   | None => []
   | Some (a, b) =>
     filter (fun i => match unpacker_get (bp_num_bits s) (N.of_nat i) (snd col) with
-                     | Some q => (a <=? q) && (q <=? b)
+                     | Some q => unpacker_in_range (bp_num_bits s) a b q
                      | None => false
                      end) (seq r0 (r1 - r0))
   end.
@@ -473,6 +508,12 @@ Section RangeLookup.
       assert (Hil : (i < length vals)%nat) by lia.
       destruct (bitpacked_quotient fdiv fdiv_spec vals i Hu Hil) as [Hq Hv]. fold s in Hq, Hv.
       rewrite Hq.
+      rewrite unpacker_in_range_plain.
+      2:{ pose proof (quotients_below fdiv fdiv_spec s vals Hok) as Hqb.
+          pose proof (proj1 (Forall_forall _ _) Hqb (fdiv (st_gcd s) (nth i vals 0 - st_min s))
+                        (in_map (fun v => fdiv (st_gcd s) (v - st_min s)) vals _ (nth_In vals 0 Hil))) as Hlt.
+          cbn beta in Hlt. rewrite fdiv_spec in Hlt; [exact Hlt|exact Hg|].
+          pose proof (all_u64_nth vals i Hu). lia. }
       pose proof (transform_range_exact guard s lo hi ((nth i vals 0 - st_min s) / st_gcd s) Hg Hc) as Hex.
       rewrite ET, Hv in Hex.
       destruct ((a <=? _) && (_ <=? b)) eqn:E1; destruct ((lo <=? nth i vals 0) && (nth i vals 0 <=? hi)) eqn:E2; try reflexivity.
